@@ -108,11 +108,9 @@ def handle_ops(g):
 def core_chains(g):
     """the chains used for [producer, X, consumer] in the quick tier"""
     out = []
-    for v in ('none', 'asmodel', 'ignorecase', 'semantics'):
-        for pv in ('none', 'asmodel'):
-            out.append((('C', g, v), ('M', 0, 0, pv)))
-    for v in ('none', 'ignorecase'):
-        out.append((('S', g, v), ('G', 0, 0)))
+    for v, pv in (('none', 'none'), ('none', 'asmodel'), ('asmodel', 'none'), ('ignorecase', 'none'), ('semantics', 'none')):
+        out.append((('C', g, v), ('M', 0, 0, pv)))
+    out.append((('S', g, 'none'), ('G', 0, 0)))
     return out
 
 
@@ -315,7 +313,11 @@ def forked(seq):
 
 def worker_main(jobfile, outfile):
     """a fresh interpreter that imports tatsu, makes no API call itself and forks one child per sequence"""
+    import gc
+
     import tatsu  # noqa: F401
+    gc.collect()
+    gc.freeze()  # fewer copy-on-write faults in the forked children
     seqs = json.load(open(jobfile))
     out = [forked(tuple(tuple(o) for o in s)) for s in seqs]
     json.dump(out, open(outfile, 'w'), default=repr)
@@ -376,8 +378,10 @@ def sequences(tier, seed):
             add((o,), 'single')
         for prod, cons in (core_chains(g) if tier == 'quick' else chains[g]):
             add((prod, cons), 'single-chain')
-        # all ordered pairs on the same grammar
+        # ordered pairs on the same grammar (quick: the second call restricted to 5 of the 8 variants)
         for a, b in itertools.product(allops[g], repeat=2):
+            if tier == 'quick' and b[2] in ('name', 'whitespace', 'config'):
+                continue
             add((a, b), 'pair')
         # the model / generated parser obtained first, any other call, then use the first
         for prod, cons in (core_chains(g) if tier == 'quick' else chains[g]):
